@@ -129,6 +129,50 @@ func (c *Ctx) MergeViolations(vs []*Violation) {
 	}
 }
 
+// Replayers re-execute one recorded scenario (the "replay" object of a replay file). Each engine
+// registers one; it reports whether the payload is its own and the failures of the re-execution.
+var Replayers []func(id string, raw json.RawMessage) (handled bool, fails []string)
+
+// RunReplay re-executes the scenario of a replay file twice (the observations must be identical)
+// and returns the process exit code: 0 no failure, 1 failure reproduced, 2 not replayable.
+func RunReplay(id, path string) int {
+	b, err := os.ReadFile(path)
+	if err != nil {
+		fmt.Fprintln(os.Stderr, "replay:", err)
+		return 2
+	}
+	var f struct {
+		Key    string          `json:"key"`
+		Replay json.RawMessage `json:"replay"`
+	}
+	if err := json.Unmarshal(b, &f); err != nil {
+		fmt.Fprintln(os.Stderr, "replay:", err)
+		return 2
+	}
+	for _, r := range Replayers {
+		ok, fails := r(id, f.Replay)
+		if !ok {
+			continue
+		}
+		_, again := r(id, f.Replay)
+		if fmt.Sprint(fails) != fmt.Sprint(again) {
+			fmt.Printf("REPLAY-NONDETERMINISTIC property=%s: first %v second %v\n", id, fails, again)
+			return 2
+		}
+		if len(fails) == 0 {
+			fmt.Printf("replay of %s: no failure (recorded key %s)\n", path, f.Key)
+			return 0
+		}
+		fmt.Printf("VIOLATION property=%s replay=%s\n", id, path)
+		for _, x := range fails {
+			fmt.Println("  " + x)
+		}
+		return 1
+	}
+	fmt.Fprintf(os.Stderr, "replay: no engine re-executes this scenario directly; run ./vcheck %s quick\n", id)
+	return 2
+}
+
 func LoadFindings() []Finding {
 	var f struct {
 		Findings []Finding `json:"findings"`
